@@ -404,3 +404,92 @@ func TestDefectC19TerminateStops(t *testing.T) {
 		t.Fatalf("after Terminate: hook ran %d times, parser ran %d times", hooks, parsed)
 	}
 }
+
+// C10: an oversized CopyData during COPY-in must be skipped in full; the message after it is
+// processed normally (here: the next Query is answered).
+func TestDefectC10OversizedCopyData(t *testing.T) {
+	parse := func(ctx context.Context, q string) (PreparedStatements, error) {
+		if q == "COPY" {
+			return Prepared(NewStatement(func(ctx context.Context, w DataWriter, p []Parameter) error {
+				r, err := w.CopyIn(BinaryFormat)
+				if err != nil {
+					return err
+				}
+				for {
+					if err = r.Read(); err != nil {
+						return err
+					}
+				}
+			}, WithColumns(Columns{{Name: "a", Oid: oid.T_int4}}))), nil
+		}
+		return Prepared(NewStatement(func(ctx context.Context, w DataWriter, p []Parameter) error { return w.Complete("OK") })), nil
+	}
+	srv := newSrv(t, parse, MessageBufferSize(64))
+	big := bytes.Repeat([]byte{'Q'}, 300)
+	in := bytes.Join([][]byte{startup(), msg('Q', cstr("COPY")), msg('d', big), msg('Q', cstr("SELECT 1"))}, nil)
+	_, types := run(t, srv, in, 700*time.Millisecond)
+	t.Logf("transcript %q", types)
+	if !bytes.HasSuffix([]byte(types), []byte("GEZCZ")) {
+		t.Fatalf("after the oversized CopyData the next message was not processed normally: %q", types)
+	}
+}
+
+// C03: bytes left over in the Query message (after the NUL) are not COPY data.
+func TestDefectC03SurplusIntoCopy(t *testing.T) {
+	var rows [][]any
+	parse := func(ctx context.Context, q string) (PreparedStatements, error) {
+		return Prepared(NewStatement(func(ctx context.Context, w DataWriter, p []Parameter) error {
+			r, err := w.CopyIn(BinaryFormat)
+			if err != nil {
+				return err
+			}
+			br, err := NewBinaryColumnReader(ctx, r)
+			if err != nil {
+				return err
+			}
+			for {
+				row, err := br.Read(ctx)
+				if err != nil {
+					break
+				}
+				rows = append(rows, row)
+			}
+			return w.Complete("COPY")
+		}, WithColumns(Columns{{Name: "a", Oid: oid.T_int4}}))), nil
+	}
+	srv := newSrv(t, parse)
+	surplus := bytes.Join([][]byte{u16(1), u32(4), u32(7)}, nil) // looks like one binary row
+	in := bytes.Join([][]byte{startup(), msg('Q', cstr("COPY t FROM STDIN"), surplus), msg('c')}, nil)
+	_, types := run(t, srv, in, 700*time.Millisecond)
+	t.Logf("transcript %q rows=%v", types, rows)
+	if len(rows) != 0 {
+		t.Fatalf("bytes left over in the Query message were decoded as COPY row %v", rows)
+	}
+}
+
+// C02: Describe with target byte 0: the ErrorResponse stays a list of fields closed by one zero byte.
+func TestDefectC02DescribeNul(t *testing.T) {
+	parse := func(ctx context.Context, q string) (PreparedStatements, error) {
+		return Prepared(NewStatement(func(ctx context.Context, w DataWriter, p []Parameter) error { return w.Complete("OK") })), nil
+	}
+	srv := newSrv(t, parse)
+	in := bytes.Join([][]byte{startup(), msg('D', []byte{0}, cstr("x")), msg('S')}, nil)
+	frames, types := run(t, srv, in, 500*time.Millisecond)
+	t.Logf("transcript %q", types)
+	for _, f := range frames {
+		if f.T != 'E' {
+			continue
+		}
+		b := f.Body
+		for len(b) > 0 && b[0] != 0 {
+			i := bytes.IndexByte(b[1:], 0)
+			if i < 0 {
+				t.Fatalf("unterminated field in %q", f.Body)
+			}
+			b = b[1+i+1:]
+		}
+		if len(b) != 1 {
+			t.Fatalf("ErrorResponse body is not fields + one terminator: %q", f.Body)
+		}
+	}
+}
